@@ -295,7 +295,7 @@ fn buf_spec_small() -> impl Strategy<Value = BufSpec> {
 
 fn mut_spec_small() -> impl Strategy<Value = MutSpec> {
     (prop_oneof![2 => Just(0u16), 8 => 1u16..600, 1 => 3000u16..4000], any::<u16>(), proptest::option::weighted(0.15, prop_oneof![(-2i8..=2).prop_map(super::c14::Limit::Near), (0u64..700).prop_map(super::c14::Limit::Abs)]))
-        .prop_map(|(cap, l, limit)| MutSpec { cap, len: ((l as u32 * (cap as u32 + 1)) >> 17) as u16, limit })
+        .prop_map(|(cap, l, limit)| MutSpec { cap, len: ((l as u32 * (cap as u32 + 1)) >> 17) as u16, limit, huge: false })
 }
 
 impl Property for C10 {
